@@ -47,6 +47,18 @@ def probe():
         if not q or not q[0].get('ok'):
             raise Inconclusive('contract probe (disk scan order) failed: %s' % err2[-300:])
         sorted_runs += [r[0] for r in q[0]['rows']] == ['1', '2', '3', '4', '5', '6']
-    _cache = {'topn_offset_without_limit_panics': topn_panics, 'disk_scan_sorted_by_pk': sorted_runs == 2, 'hashjoin_null_eq': n[0] == 1, 'semijoin_null_eq': n[1] == 1, 'mergejoin_null_eq': n[3] == 1,
+    # is the predicate pushed into a scan still evaluated on the scanned rows, or does the engine trust storage to apply it?
+    # (`k > 1 AND k < 0` is pushed as a range and then folded to `false`, which storage does not recognise as a range)
+    d = scratch_dir('probe')
+    stm = ['create table t(k int primary key, v int)', 'insert into t values (0, 0), (1, 1), (2, 2)', 'select k from t where k > 1 and k < 0',
+           'explain select k from t where k > 1 and k < 0']
+    o4, rc4, err4 = rl('sql', {'engine': 'disk', 'dir': d, 'block': 4096, 'rowset': 1 << 20, 'stmts': stm})
+    shutil.rmtree(d, ignore_errors=True)
+    q4 = [o for o in o4 if o.get('sql') == stm[2]]
+    if not q4 or not q4[0].get('ok'):
+        raise Inconclusive('contract probe (scan filter) failed: %s' % err4[-300:])
+    pushed = any('Scan' in str(o.get('rows')) and 'filter: false' in str(o.get('rows')) for o in o4 if o.get('sql') == stm[3])
+    scan_filter_reapplied = (len(q4[0]['rows']) == 0) if pushed else True
+    _cache = {'scan_filter_reapplied': scan_filter_reapplied, 'topn_offset_without_limit_panics': topn_panics, 'disk_scan_sorted_by_pk': sorted_runs == 2, 'hashjoin_null_eq': n[0] == 1, 'semijoin_null_eq': n[1] == 1, 'mergejoin_null_eq': n[3] == 1,
               'count_distinct_counts_null': res[4]['rows'][0][0] == '1'}
     return _cache
